@@ -35,11 +35,14 @@
    still on the line), so the first token they leave is a key or the command word the scan stopped
    at -- and a key is never taken for a command (TokOs.v: the text the tokenizer records for an
    option starts with a dash or is empty); the subcommand's own parser is judged by induction.
-   With C04_total_without_adjacent the rejected vectors end in an error message or a document,
-   never in a panic.  This is the full statement of the property for the conventional fragment. *)
+   ConvStderr.v adds the last clause: a rejected vector holds no help flag, the compiled tree has no
+   `adjacent`, the default Info at every level and passes check_invariants at every level, so the run
+   is total (TotalLaws.v), does not end on stdout (QuietLaws.v) and is not a value: it is an error
+   message on stderr -- C01_tree_rejected_stderr.  C01_conformance puts the three cases side by side:
+   this is the full statement of the property for the conventional fragment. *)
 From Coq Require Import List Bool.
 From BpafModel Require Import Conv.
-From BpafLemmas Require Import Tac EvalEq Find Reach Ledger NoLoss C05Lemmas OkReach OkLaws ConvLaws AbsSim AbsTotal ConvRefine ConvTotal ConvChain ConvTree ConvSound ConvTreeSound.
+From BpafLemmas Require Import Tac EvalEq Find Reach Ledger NoLoss C05Lemmas OkReach OkLaws ConvLaws AbsSim AbsTotal ConvRefine ConvTotal ConvChain ConvTree ConvSound ConvTreeSound QuietLaws ConvStderr.
 Import ListNotations.
 
 (* every sentence of a flat level, in every spelling and order the grammar admits, is accepted and
@@ -111,6 +114,37 @@ Theorem C01_tree_rejected_never_ok :
   forall v, run_inner feat env (compile_options l) None argv <> OutOk v.
 Proof. exact denote_reject_tree. Qed.
 Print Assumptions C01_tree_rejected_never_ok.
+
+(* ... it is reported as a failure on stderr *)
+Theorem C01_tree_rejected_stderr :
+  forall feat env l argv,
+  tree_ok l -> plain_cmds l = true -> denote l argv = Reject ->
+  exists m, run_inner feat env (compile_options l) None argv = OutStderr m.
+Proof. exact denote_reject_stderr_tree. Qed.
+Print Assumptions C01_tree_rejected_stderr.
+
+(* THE PROPERTY, for every conventional definition (whole subcommand trees) and every vector:
+   sentences yield exactly the value they denote, every other specified vector is a failure on
+   stderr and never a value *)
+Theorem C01_conformance :
+  forall feat env l argv,
+  tree_ok l -> plain_cmds l = true ->
+  match denote l argv with
+  | Accept v => run_inner feat env (compile_options l) None argv = OutOk v
+  | Reject => exists m, run_inner feat env (compile_options l) None argv = OutStderr m
+  | Unspecified => True
+  end.
+Proof.
+  intros feat env l argv Hok Hpl. destruct (denote l argv) as [v| |] eqn:Hd; [|exact (denote_reject_stderr_tree feat env l argv Hok Hpl Hd)|exact I].
+  exact (denote_accept_tree feat env l argv v Hok Hd).
+Qed.
+Print Assumptions C01_conformance.
+
+(* every conventional tree is total on every vector *)
+Theorem C01_tree_total :
+  forall feat env l name argv, tree_ok l -> normal_outcome (run_inner feat env (compile_options l) name argv).
+Proof. exact tree_run_total. Qed.
+Print Assumptions C01_tree_total.
 
 (* every vector, sentence or not: the outcome is a value, a help/version document or an error
    message -- never a panic outcome, never fuel exhaustion *)
